@@ -1286,8 +1286,10 @@ func (t *State) recoverUnconfirmedTx(undoList []*pb.Transaction) {
 		}
 
 		// 检查交易是否已经被确认（被其他节点打包倒区块并广播了过来）
-		isConfirm, err := t.sctx.Ledger.HasTransaction(tx.Txid)
-		if err != nil && isConfirm {
+		// (the test used to read "err != nil && isConfirm", which never holds: a confirmed
+		// transaction that still verifies - one that only reads keys, say - went back into the pool)
+		isConfirm := t.sctx.Ledger.IsTxInTrunk(tx.Txid)
+		if isConfirm {
 			confirmCnt++
 			t.log.Info("this tx has been confirmed,ignore recover", "txid", hex.EncodeToString(tx.Txid))
 			continue
